@@ -235,8 +235,19 @@ Fixpoint spec_cas (o : ostate) (f : final) (c : ca) (l : list (nat * nat * nat))
       spec_cas o f (S c) r
   end.
 
+(** every thread that was started is among the finished ones *)
+Definition all_finished (evs : list event) (f : final) : bool :=
+  forallb (fun e => match e with
+                    | EStart t _ => existsb (fun '(t', _) => Nat.eqb t' t) (f_res f)
+                    | _ => true
+                    end) evs.
+
+(** (f) when no issuance is in flight any more, the registration lock is free *)
+Definition spec_lock (evs : list event) (f : final) : bool :=
+  negb (all_finished evs f) || f_lock_free f.
+
 Definition spec_hist (evs : list event) (f : final) : bool :=
-  let o := orun evs in o_ok_e o && o_ok_d o && spec_cas o f 0 (f_cas f).
+  let o := orun evs in o_ok_e o && o_ok_d o && spec_cas o f 0 (f_cas f) && spec_lock evs f.
 
 (* ------------------------------------------------------------------ kinds 1, 2: URL rule *)
 
